@@ -43,6 +43,7 @@ var pureExterns = map[string]bool{
 	"math.Log":        true, "math.Pow": true, "math.Log2": true,
 	"bytes.Compare": true, "bytes.HasPrefix": true,
 	"runtime.Gosched": true,
+	"github.com/syndtr/goleveldb/leveldb/util.BytesPrefix": true,
 	// sync.Pool: Get returns some value (callers type-assert it), Put hands the object to the pool
 	"(*sync.Pool).Put": true, "(*sync.Pool).Get": true,
 }
